@@ -157,7 +157,9 @@ def base_exec(rng, n_files=4):
 # general experiment generator shared by C03 / C04 / C07 / C09 / C15
 
 TXT_LINES = ["see http://example.com/a\n", "plain line\n", "two http://a.invalid and http://b.invalid\n", "https://ok.invalid\n",
-             "\n", "café http://c.invalid\n", "tab\there\n"]
+             "\n", "café http://c.invalid\n", "tab\there\n",
+             # separators that str.splitlines honours but diff consumers do not
+             "ff http://d.invalid\x0cafter the form feed\n", "ls http://e.invalid\u2028after U+2028\n", "nel\x85http://f.invalid\n"]
 XML_DOCS = [
     '<?xml version="1.0" encoding="utf-8"?>\n<config>\n  <session name="a"/>\n  <other>text &amp; more</other>\n</config>\n',
     '<config>\n  <session secure="false">x</session>\n  <!-- c -->\n</config>\n',
